@@ -666,6 +666,7 @@ def is_tag_ancestor_form(case):
 class C08(PropBase):
     id = "C08"
     needs_cli = True
+    _cleaned = False
 
     def run_impl(self, impl_cases):
         """library side through the harness; cases that carry a `cli` route are also run through the real binary"""
@@ -740,7 +741,10 @@ class C08(PropBase):
         if focus:
             nrepo = 4 if tier == "quick" else 20
         # stale repositories of earlier runs are not needed (a replay rebuilds from the history)
-        if not focus and os.path.isdir(ROOT):
+        # (once per process: `gen` may be called several times in one run - the source-drift rounds of bin/check - and the
+        # repositories of the earlier rounds are still needed when the cases are run)
+        if not focus and os.path.isdir(ROOT) and not C08._cleaned:
+            C08._cleaned = True
             for n in os.listdir(ROOT):
                 shutil.rmtree(os.path.join(ROOT, n), ignore_errors=True)
         out = []
